@@ -31,3 +31,30 @@ package text
 //@   arith bv
 //@   ensures result1 == (len(key) >= 2 && key[0] == 't' && key[len(key)-1] == 's')
 //@   ensures result1 ==> len(result0) == len(key) - 2 && forall(k, 0, len(key)-2, result0[k] == key[1+k])
+
+// ---- persisted corpus size (properties C05, C08): flush always writes the current number of
+// documents under the key initSize reads, with the inverse codec; both caches are flushed.
+//@ func (*indexText).flush
+//@   property C05 C08
+//@   arith bv
+//@   requires index.setCache != nil && index.docCache != nil && index.setCache != index.docCache
+//@   requires unheld(index.setCache.itemsMu) && index.setCache.items != nil && forallv(k string, contains(index.setCache.items, k) ==> index.setCache.items[k] != nil)
+//@   requires unheld(index.docCache.itemsMu) && index.docCache.items != nil && forallv(k uint64, contains(index.docCache.items, k) ==> index.docCache.items[k] != nil)
+//@   requires forallv(a string, forallv(b string, a != b && contains(index.setCache.items, a) && contains(index.setCache.items, b) ==> index.setCache.items[a] != index.setCache.items[b]))
+//@   requires forallv(a uint64, forallv(b uint64, a != b && contains(index.docCache.items, a) && contains(index.docCache.items, b) ==> index.docCache.items[a] != index.docCache.items[b]))
+//@   ensures ncalls(Put) == 1 && string(callarg(Put, 1, 1)) == "_numDocuments" && len(callarg(Put, 1, 2)) == 8 && le64at(callarg(Put, 1, 2), 0) == old(index.numDocs)
+//@   ensures callres(Put, 1, 0) != nil ==> result != nil
+//@   ensures result == nil ==> ncalls(Flush) == 2 && callarg(Flush, 1, 0) == index.setCache && callarg(Flush, 2, 0) == index.docCache && callres(Flush, 1, 0) == nil && callres(Flush, 2, 0) == nil
+//@ func (*indexText).initSize
+//@   property C05 C08
+//@   arith bv
+//@   pure
+//@   after Get assume result == nil || len(result) == 8
+//@   ensures ncalls(Get) == 1 && string(callarg(Get, 1, 1)) == "_numDocuments"
+//@   ensures callres(Get, 1, 0) == nil ==> result == 0
+//@   ensures callres(Get, 1, 0) != nil ==> result == le64at(callres(Get, 1, 0), 0)
+
+//@ func (*setCacheItem).CheckAndClearDirty
+//@   property C08
+//@   modifies si.isDirty
+//@   ensures result == old(si.isDirty) && !si.isDirty
